@@ -5,16 +5,24 @@ repository under test with `ast`, rendered as Coq terms over Flocq's binary64 ro
   Timeline.tick_duration  (property)          -> src_tick_duration  tpb     : R
   Timeline.tick:  self.current_time = ...     -> src_timeline_step  tpb t   : R
   Track.tick:     self.current_time = ...     -> src_track_step     tpb t   : R
+  Track.tick:     if/while <due test>         -> src_track_due      t x     : bool   (t = self.current_time, x = self.next_event_time)
+  Track.process_note_offs:  if <due test>     -> src_noteoff_due    ts t    : bool   (ts = note_off.timestamp)
+  Timeline.tick:  if <due test> (actions)     -> src_action_due     a t     : bool   (a = action.time)
 
 Semantics used by the translation (CPython on IEEE-754 binary64, round-to-nearest-even):
   * a float literal / int->float conversion of the small integers involved is exact;
   * `a + b`, `a * b`, `a / b` with a float operand, and int / int true division, are ONE correctly rounded operation:
     RN (a op b);
   * `round(x)` (one argument) of a float is the nearest integer, ties to even: IZR (pyround x);
+  * `round(x, 8)` of a float is correctly rounded to 8 decimals: py_round8 x (Base/FloatRound8.v);
+  * `a >= b` / `a <= b` between floats, or a float and the int literal 0, compares the exact values: Rle_bool b a / Rle_bool a b
+    (-0.0 >= 0 is True in Python, as in the reals); the time attributes named above hold floats;
   * `x += e` is `x = x + e`.
 Everything else is rejected (exit 3): the check then reports a broken proof obligation, never a silent default.
-Base/FloatGridSrc.v proves that these terms are the ones Base/FloatGrid.v's theorems are about (by reflexivity), so a
-change of the source expression breaks the proof obligation of C01."""
+Base/FloatGridSrc.v / Base/FloatDueSrc.v prove that these terms are the ones the theorems of Base/FloatGrid.v /
+Base/FloatDue.v are about (by reflexivity), so a change of the source expression breaks the proof obligation of C01.
+Both shapes of a due test translate - `round(a - b, 8) >= 0` (repair 9bb39e5) and `round(a, 8) >= round(b, 8)` (before) -
+so that reverting the repair yields a Coq term for which the reflexivity proof fails, not a translator crash."""
 import ast, os, re, sys
 
 
@@ -49,8 +57,15 @@ def is_tpb(n, local_tpb):
     return isinstance(n, ast.Name) and n.id in local_tpb
 
 
-def tr(n, local_tpb):
-    """expression -> (coq term : R, python type 'int'|'float')"""
+def is_name_attr(n, name, attr):
+    return isinstance(n, ast.Attribute) and isinstance(n.value, ast.Name) and n.value.id == name and n.attr == attr
+
+
+def tr(n, local_tpb, env=()):
+    """expression -> (coq term : R, python type 'int'|'float'); env: extra float leaves [(predicate, coq variable)]"""
+    for pred, var in env:
+        if pred(n):
+            return var, "float"
     if is_self_attr(n, "current_time"):
         return "t", "float"
     if is_self_attr(n, "tick_duration"):
@@ -60,13 +75,19 @@ def tr(n, local_tpb):
     if isinstance(n, ast.Constant) and type(n.value) in (int, float) and float(n.value) == int(n.value) and abs(n.value) < 2 ** 31:
         return ("(IZR (%d))" % int(n.value)), ("float" if type(n.value) is float else "int")
     if isinstance(n, ast.Call) and isinstance(n.func, ast.Name) and n.func.id == "round" and len(n.args) == 1 and not n.keywords:
-        a, ty = tr(n.args[0], local_tpb)
+        a, ty = tr(n.args[0], local_tpb, env)
         if ty != "float":
             raise Reject("round() of a non-float")
         return "(IZR (pyround %s))" % a, "int"
+    if (isinstance(n, ast.Call) and isinstance(n.func, ast.Name) and n.func.id == "round" and len(n.args) == 2 and not n.keywords
+            and isinstance(n.args[1], ast.Constant) and type(n.args[1].value) is int and n.args[1].value == 8):
+        a, ty = tr(n.args[0], local_tpb, env)
+        if ty != "float":
+            raise Reject("round(., 8) of a non-float")
+        return "(py_round8 %s)" % a, "float"
     if isinstance(n, ast.BinOp) and type(n.op) in (ast.Add, ast.Sub, ast.Mult, ast.Div):
-        a, ta = tr(n.left, local_tpb)
-        b, tb = tr(n.right, local_tpb)
+        a, ta = tr(n.left, local_tpb, env)
+        b, tb = tr(n.right, local_tpb, env)
         op = {ast.Add: "+", ast.Sub: "-", ast.Mult: "*", ast.Div: "/"}[type(n.op)]
         if type(n.op) is not ast.Div and ta == "int" and tb == "int":
             raise Reject("exact integer arithmetic is not expected here: " + ast.unparse(n))
@@ -93,6 +114,46 @@ def time_assignment(fn):
     return found[0]
 
 
+def tr_test(n, env):
+    """a due test `a >= b` / `a <= b` -> coq term : bool.  Each side: a float expression, or the int literal 0."""
+    if not (isinstance(n, ast.Compare) and len(n.ops) == 1 and len(n.comparators) == 1 and type(n.ops[0]) in (ast.GtE, ast.LtE)):
+        raise Reject("due test is not a single >= / <= comparison: " + ast.unparse(n))
+    sides = []
+    for e in (n.left, n.comparators[0]):
+        if isinstance(e, ast.Constant) and type(e.value) is int and e.value == 0:
+            sides.append("0")
+            continue
+        term, ty = tr(e, set(), env)
+        if ty != "float":
+            raise Reject("due test compares a non-float: " + ast.unparse(e))
+        sides.append(term)
+    if sides == ["0", "0"]:
+        raise Reject("due test compares two literals")
+    lo, hi = (sides[1], sides[0]) if type(n.ops[0]) is ast.GtE else (sides[0], sides[1])
+    return "(Rle_bool %s %s)" % (lo, hi)
+
+
+def mentions(n, pred):
+    return any(pred(m) for m in ast.walk(n))
+
+
+def due_test(fn, key, env, expected_kinds):
+    """the tests of the if/while statements of `fn` that mention the attribute recognised by `key`: there must be exactly
+    the statement kinds `expected_kinds` (e.g. [If, While]) and all tests must translate to the same term"""
+    sts = [st for st in ast.walk(fn) if isinstance(st, (ast.If, ast.While)) and mentions(st.test, key)]
+    kinds = sorted(type(st).__name__ for st in sts)
+    if kinds != sorted(expected_kinds):
+        raise Reject("%s: due tests found in %s, expected %s" % (fn.name, kinds, sorted(expected_kinds)))
+    # the attribute must not be tested anywhere else (conditional expressions, asserts, comprehensions ...)
+    others = [m for m in ast.walk(fn) if isinstance(m, (ast.IfExp, ast.Assert, ast.comprehension)) and mentions(m, key)]
+    if others:
+        raise Reject("%s: the time attribute is tested outside if/while statements" % fn.name)
+    terms = {tr_test(st.test, env) for st in sts}
+    if len(terms) != 1:
+        raise Reject("%s: the due tests differ: %s" % (fn.name, sorted(terms)))
+    return terms.pop()
+
+
 def main(out_path):
     repo = os.environ.get("PYTHONPATH", "/repo").split(":")[0]
     tl = ast.parse(open(os.path.join(repo, "isobar", "timelines", "timeline.py")).read())
@@ -114,13 +175,24 @@ def main(out_path):
         raise Reject("Track.tick_duration does not return self.timeline.tick_duration")
     tl_step = time_assignment(find_def(Timeline, "tick"))
     tk_step = time_assignment(find_def(Track, "tick"))
+    is_next = lambda n: is_self_attr(n, "next_event_time")
+    is_ts = lambda n: is_name_attr(n, "note_off", "timestamp")
+    is_at = lambda n: is_name_attr(n, "action", "time")
+    track_due = due_test(find_def(Track, "tick"), is_next, [(is_next, "x")], ["If", "While"])
+    noteoff_due = due_test(find_def(Track, "process_note_offs"), is_ts, [(is_ts, "ts")], ["If"])
+    action_due = due_test(find_def(Timeline, "tick"), is_at, [(is_at, "a")], ["If"])
     text = ("(* GENERATED by harness/gen_tables_time.py from the source text of isobar/timelines/{timeline,track}.py.  Do not edit. *)\n"
             "From Coq Require Import ZArith Reals.\n"
-            "From Isobar Require Import Base.FloatGrid.\n"
+            "From Flocq Require Import Core.\n"
+            "From Isobar Require Import Base.FloatGrid Base.FloatRound8.\n"
             "Open Scope R_scope.\n\n"
             "Definition src_tick_duration (tpb : Z) : R := %s.\n"
             "Definition src_timeline_step (tpb : Z) (t : R) : R := %s.\n"
-            "Definition src_track_step (tpb : Z) (t : R) : R := %s.\n" % (dur, tl_step, tk_step))
+            "Definition src_track_step (tpb : Z) (t : R) : R := %s.\n"
+            "Definition src_track_due (t x : R) : bool := %s.\n"
+            "Definition src_noteoff_due (ts t : R) : bool := %s.\n"
+            "Definition src_action_due (a t : R) : bool := %s.\n"
+            % (dur, tl_step, tk_step, track_due, noteoff_due, action_due))
     old = open(out_path).read() if os.path.exists(out_path) else None
     if old != text:
         tmp = out_path + ".tmp%d" % os.getpid()
